@@ -815,7 +815,7 @@ class FbScheme(Scheme):
     def world(self, I, st, fr, cfg):
         m = cfg.get('m', 1)
         X = makers.tspace(I, st, 'X', 'real')
-        Ys = [makers.tspace(I, st, 'Y%d' % i, 'real') for i in range(m)]
+        Ys = [makers.tspace(I, st, 'Y', 'real')] * m if cfg.get('shared_range') else [makers.tspace(I, st, 'Y%d' % i, 'real') for i in range(m)]
         w = dict(X=X, Ys=Ys, L=[AbsOp(I, 'L%d' % i, X, Ys[i], True) for i in range(m)], f=AbsFunc(I, st, 'f', X), h=AbsFunc(I, st, 'h', X),
                  g=[AbsFunc(I, st, 'g%d' % i, Ys[i]) for i in range(m)], tau=makers.pos_scalar(st, 'tau'),
                  sigma=[makers.pos_scalar(st, 'sigma%d' % i) for i in range(m)], niter=niter_sym(st), m=m)
@@ -1080,7 +1080,11 @@ class DrScheme(Scheme):
     def world(self, I, st, fr, cfg):
         m = cfg.get('m', 1)
         X = makers.tspace(I, st, 'X', 'real')
-        Ys = [makers.tspace(I, st, 'Y%d' % i, 'real') for i in range(m)]
+        if cfg.get('shared_range'):
+            Y0 = makers.tspace(I, st, 'Y', 'real')          # several operators into ONE range space (reusable temporaries keyed by range)
+            Ys = [Y0] * m
+        else:
+            Ys = [makers.tspace(I, st, 'Y%d' % i, 'real') for i in range(m)]
         lam = S(z3.Real('lam'))
         st.assume(lam > 0)
         st.assume(lam < 2)
@@ -1161,10 +1165,11 @@ class DrScheme(Scheme):
 SCHEMES = [(PdhgScheme(), ['update', 'fixed_to_kkt', 'kkt_to_fixed'], [dict()]),
            (PdhgScheme(), ['update'], [dict(accel='primal'), dict(accel='dual')]),
            (FbScheme(), ['update', 'fixed_to_kkt', 'kkt_to_fixed'], [dict(m=1), dict(m=2)]),
+           (FbScheme(), ['update'], [dict(m=2, shared_range=True)]),
            (ProxGradScheme(), ['update', 'fixed_to_kkt', 'kkt_to_fixed'], [dict()]),
            (AccelProxGradScheme(), ['update', 'fixed_to_kkt', 'kkt_to_fixed'], [dict()]),
            (AdmmScheme(), ['update', 'fixed_to_kkt', 'kkt_to_fixed'], [dict()]),
-           (DrScheme(), ['update'], [dict(m=1), dict(m=2), dict(m=1, l=True)]),
+           (DrScheme(), ['update'], [dict(m=1), dict(m=2), dict(m=1, l=True), dict(m=2, shared_range=True), dict(m=2, shared_range=True, l=True)]),
            (DrScheme(), ['fixed_to_kkt'], [dict(m=1), dict(m=2)])]
 
 
